@@ -201,6 +201,45 @@ func runC05(p *Prog, r *Report, tier string) {
 			r.Check(okL, "R-VALUE.throughput", "aggregateRecords: common throughput follows the latest reporter", p.instrPos(s.in), "under isLatest", "the common throughput is overwritten by a record that is not the latest", true)
 		}
 	}
+	// ---- success returns: only "nothing configured", "not the latest record from its node" and the end of the function
+	nRet := 0
+	eachInstr(agg, func(in ssa.Instruction) {
+		rt, ok := in.(*ssa.Return)
+		if !ok {
+			return
+		}
+		if n, has := retErrNil(rt); !has || !n {
+			return
+		}
+		nRet++
+		facts := p.boolFacts(in.Block())
+		kind := ""
+		for _, f := range facts {
+			if strings.HasPrefix(f, "(AggregationProcess.aggregateElements == nil)") {
+				kind = "no aggregation configured"
+			}
+			if strings.HasPrefix(f, `(GetUnsigned32Value(elem($incomingRecord, "flowEndSeconds")) <= `) {
+				kind = "not the latest record from its node"
+			}
+		}
+		if kind == "" {
+			// must be the exit of the final (throughput) loop: no Set call is reachable from here, and the throughput sets dominate it
+			dom := false
+			for i := range sites {
+				if strings.Contains(sites[i].recv, "ThroughputElements[i])") && sites[i].in.Block().Dominates(in.Block()) == false {
+					// the return must come after the throughput loop: the loop head dominates it
+					if lh := loopHeadOf(sites[i].in.Block()); lh != nil && lh.Dominates(in.Block()) {
+						dom = true
+					}
+				}
+			}
+			if dom {
+				kind = "end of the function, after the throughput fields were written"
+			}
+		}
+		r.Check(kind != "", "R-VALUE.step", fmt.Sprintf("aggregateRecords: success return #%d", nRet), p.instrPos(in), kind,
+			"an additional early 'return nil' skips part of the aggregation (e.g. the throughput update when the octet totals did not move, which must become 0): facts "+strings.Join(facts, " && "), true)
+	})
 	// ---- prevEnd helper
 	if u := p.Fn("(*pkg/intermediate.AggregationProcess).updateFlowEndSecondsFromNodes"); u == nil {
 		r.Undecided("R-VALUE.prev-end", "anchor: updateFlowEndSecondsFromNodes", "pkg/intermediate/aggregate.go", "not found")
@@ -411,6 +450,37 @@ func checkReset(p *Prog, r *Report) {
 		if isThr && !isStats {
 			okR = true
 		}
+		// the only conditions that may decide whether a field is reset are: isDelta, the loop bounds and "the element exists"
+		// conditions controlling the reset: every branch that lies on a path from the enclosing outer loop's head to this call
+		ctl := map[string]bool{}
+		for _, f := range facts {
+			ctl[f] = true
+		}
+		if outer := outermostLoopHead(in.Block()); outer != nil {
+			for _, b := range rs.Blocks {
+				i := ifOf(b)
+				if i == nil || b == in.Block() {
+					continue
+				}
+				if (b == outer || reachableAvoiding(outer, b, nil)) && reachableAvoiding(b, in.Block(), outer) {
+					ctl[p.nf(i.Cond)] = true
+				}
+			}
+		}
+		var ctlList []string
+		for f := range ctl {
+			ctlList = append(ctlList, f)
+		}
+		sort.Strings(ctlList)
+		for _, f := range ctlList {
+			g := strings.TrimPrefix(f, "!")
+			allowed := strings.HasPrefix(g, "Contains(") || strings.HasPrefix(g, "exists(") || strings.Contains(g, " < len(") || strings.Contains(g, "< builtin:len(") || strings.HasPrefix(g, "((1 + ")
+			if !allowed {
+				okR = false
+				r.Violation("R-VALUE.reset", fmt.Sprintf("ResetStatAndThroughputElementsInRecord: ResetValue #%d is skipped under an extra condition", n), p.instrPos(in),
+					"whether a delta/throughput field is reset depends on "+f+": a reset no longer clears every delta and throughput field (a node's sum can survive the reset and be counted twice)")
+			}
+		}
 		r.Check(okR, "R-VALUE.reset", fmt.Sprintf("ResetStatAndThroughputElementsInRecord: ResetValue #%d on %s", n, recv), p.instrPos(in), "a delta counter (under isDelta) or a throughput field",
 			"a reset can clear a field that is neither a delta counter nor a throughput field (totals must survive: they are the base of the next throughput)", true)
 	})
@@ -566,4 +636,61 @@ func literalLists(p *Prog, recv ssa.Value) []string {
 	walk(recv, 0)
 	sort.Strings(out)
 	return out
+}
+
+// loopHeadOf returns the innermost loop header dominating b from which b can be reached again (nil if b is not in a loop).
+func loopHeadOf(b *ssa.BasicBlock) *ssa.BasicBlock {
+	var best *ssa.BasicBlock
+	for _, h := range b.Parent().Blocks {
+		if !h.Dominates(b) {
+			continue
+		}
+		for _, pr := range h.Preds {
+			if h.Dominates(pr) && reachableBlock(b, pr) {
+				if best == nil || best.Dominates(h) {
+					best = h
+				}
+			}
+		}
+	}
+	return best
+}
+
+func outermostLoopHead(b *ssa.BasicBlock) *ssa.BasicBlock {
+	var best *ssa.BasicBlock
+	for _, h := range b.Parent().Blocks {
+		if !h.Dominates(b) {
+			continue
+		}
+		for _, pr := range h.Preds {
+			if h.Dominates(pr) && reachableBlock(b, pr) {
+				if best == nil || h.Dominates(best) {
+					best = h
+				}
+			}
+		}
+	}
+	return best
+}
+
+// reachableAvoiding: is `to` reachable from `from` without passing through `avoid` (avoid may be nil)?
+func reachableAvoiding(from, to, avoid *ssa.BasicBlock) bool {
+	seen := map[*ssa.BasicBlock]bool{}
+	var w func(b *ssa.BasicBlock) bool
+	w = func(b *ssa.BasicBlock) bool {
+		for _, s := range b.Succs {
+			if s == to {
+				return true
+			}
+			if s == avoid || seen[s] {
+				continue
+			}
+			seen[s] = true
+			if w(s) {
+				return true
+			}
+		}
+		return false
+	}
+	return w(from)
 }
